@@ -109,36 +109,41 @@ Lemma step_data_fault cfg asset s t rowno row :
   is_err (data_row cfg asset s t rowno row) -> is_err (row_step cfg asset s rowno row).
 Proof.
   intros C N F D. destruct (first_ok_facts _ F) as [E1 [E2 E3]].
-  unfold row_step. rewrite C, E3, E1, E2. simpl.
+  unfold row_step, row_step_gen. rewrite C, E3, E1, E2. simpl.
   destruct (ps_count s =? 1) eqn:K; [apply Z.eqb_eq in K; contradiction|].
   destruct (data_row cfg asset s t rowno row); [contradiction|exact I].
 Qed.
 
 Lemma step_nested cfg asset s t t' rowno row :
   ps_cur s = Some t -> table_of_cell (nth 0 row CEmpty) = Some t' -> is_err (row_step cfg asset s rowno row).
-Proof. intros C K. unfold row_step. rewrite C, K. simpl. exact I. Qed.
+Proof. intros C K. unfold row_step, row_step_gen. rewrite C, K. simpl. exact I. Qed.
 
 Lemma step_blank_in_table cfg asset s t rowno row :
   ps_cur s = Some t -> is_empty_cell (nth 0 row CEmpty) = true -> is_err (row_step cfg asset s rowno row).
-Proof. intros C K. unfold row_step. rewrite C, K. rewrite orb_true_r. exact I. Qed.
+Proof. intros C K. unfold row_step, row_step_gen. rewrite C, K. rewrite orb_true_r. exact I. Qed.
 
 Lemma step_table_end_outside cfg asset s rowno row :
   ps_cur s = None -> is_table_end (nth 0 row CEmpty) = true -> is_err (row_step cfg asset s rowno row).
-Proof. intros C K. unfold row_step. rewrite C, K. simpl. exact I. Qed.
+Proof. intros C K. unfold row_step, row_step_gen. rewrite C, K. simpl. exact I. Qed.
 
 Lemma step_data_outside cfg asset s rowno row :
   ps_cur s = None -> first_ok (nth 0 row CEmpty) = true -> is_err (row_step cfg asset s rowno row).
 Proof.
   intros C F. destruct (first_ok_facts _ F) as [E1 [E2 E3]].
-  unfold row_step. rewrite C, E3, E1, E2. simpl. exact I.
+  unfold row_step, row_step_gen. rewrite C, E3, E1, E2. simpl. exact I.
 Qed.
 
 Lemma step_repeated cfg asset s t rowno row :
-  ps_cur s = None -> table_of_cell (nth 0 row CEmpty) = Some t -> set_empty s t = false -> is_err (row_step cfg asset s rowno row).
+  ps_cur s = None -> table_of_cell (nth 0 row CEmpty) = Some t -> repeated_table gen_parser_remembers_tables s t = true ->
+  is_err (row_step cfg asset s rowno row).
 Proof.
   intros C K SE. destruct (kw_facts _ _ K) as [E1 E2].
-  unfold row_step. rewrite C, K, E1, E2, SE. simpl. exact I.
+  unfold row_step, row_step_gen. cbv zeta. rewrite C, K, E1, E2. cbn [orb andb negb]. rewrite SE. exact I.
 Qed.
+
+(** whichever test the code uses, a table type whose set already holds transactions counts as repeated ... *)
+Lemma repeated_if_set_nonempty s t : set_empty s t = false -> seen_has t (ps_seen s) = true -> repeated_table gen_parser_remembers_tables s t = true.
+Proof. intros H1 H2. unfold repeated_table. destruct gen_parser_remembers_tables; [exact H2|rewrite H1; reflexivity]. Qed.
 
 (** ---------- propagation: an error at any row is the result of the whole sheet *)
 Lemma parse_rows_app cfg asset : forall l1 l2 s n,
@@ -161,13 +166,15 @@ Proof.
 Qed.
 
 Definition init_state (counter : Z) : pstate :=
-  {| ps_cur := None; ps_count := 0; ps_ins := []; ps_outs := []; ps_intras := []; ps_art := []; ps_counter := counter; ps_meta := [] |}.
+  {| ps_cur := None; ps_count := 0; ps_ins := []; ps_outs := []; ps_intras := []; ps_art := []; ps_counter := counter; ps_meta := [];
+     ps_seen := [] |}.
 
 Lemma parse_sheet_rows_err cfg asset counter rows :
   is_err (parse_rows cfg asset (init_state counter) 1 rows) -> is_err (parse_sheet cfg asset counter rows).
 Proof.
-  intro H. unfold parse_sheet. destruct (str_index asset (pc_assets cfg) 0); [|exact I].
-  fold (init_state counter). destruct (parse_rows cfg asset (init_state counter) 1 rows); [contradiction|exact I].
+  intro H. unfold parse_sheet, parse_sheet_gen. destruct (str_index asset (pc_assets cfg) 0); [|exact I].
+  fold (init_state counter). change (parse_rows_gen gen_parser_remembers_tables) with parse_rows.
+  destruct (parse_rows cfg asset (init_state counter) 1 rows); [contradiction|exact I].
 Qed.
 
 (** a single faulty row after ANY accepted prefix, followed by ANYTHING *)
@@ -181,16 +188,16 @@ Proof. intros P R. apply parse_sheet_rows_err. eapply parse_rows_fault; eauto. Q
 Theorem unterminated_table cfg asset counter rows s t :
   parse_rows cfg asset (init_state counter) 1 rows = Ok s -> ps_cur s = Some t -> is_err (parse_sheet cfg asset counter rows).
 Proof.
-  intros P C. unfold parse_sheet. destruct (str_index asset (pc_assets cfg) 0); [|exact I].
-  fold (init_state counter). rewrite P, C. exact I.
+  intros P C. unfold parse_sheet, parse_sheet_gen. destruct (str_index asset (pc_assets cfg) 0); [|exact I].
+  fold (init_state counter). change (parse_rows_gen gen_parser_remembers_tables) with parse_rows. rewrite P, C. exact I.
 Qed.
 
 (** missing or empty IN table *)
 Theorem no_in_transactions cfg asset counter rows s :
   parse_rows cfg asset (init_state counter) 1 rows = Ok s -> ps_ins s = [] -> is_err (parse_sheet cfg asset counter rows).
 Proof.
-  intros P C. unfold parse_sheet. destruct (str_index asset (pc_assets cfg) 0); [|exact I].
-  fold (init_state counter). rewrite P, C. destruct (ps_cur s); exact I.
+  intros P C. unfold parse_sheet, parse_sheet_gen. destruct (str_index asset (pc_assets cfg) 0); [|exact I].
+  fold (init_state counter). change (parse_rows_gen gen_parser_remembers_tables) with parse_rows. rewrite P, C. destruct (ps_cur s); exact I.
 Qed.
 
 (** a sheet that is otherwise valid (any tables, any order) but has no IN table, or an IN table without data rows *)
@@ -204,15 +211,17 @@ Theorem missing_or_empty_in_table cfg asset ai counter blocks trailing p :
 Proof.
   intros A W ND TR E NE. unfold expected in E.
   destruct (expect_blocks cfg (acc0 counter) 1 blocks) as [a|] eqn:EB; [|discriminate]. inversion E; subst p; clear E.
-  unfold parse_sheet. rewrite A. unfold render_sheet.
-  change {| ps_cur := None; ps_count := 0; ps_ins := []; ps_outs := []; ps_intras := []; ps_art := []; ps_counter := counter; ps_meta := [] |}
-    with (st_of None 0 (acc0 counter)).
-  destruct (blocks_parse cfg asset ai blocks 0 (acc0 counter) a 1 trailing W A ND) as [c P]; auto.
-  { intros b _. destruct (b_tab b); reflexivity. }
+  unfold parse_sheet, parse_sheet_gen. rewrite A. unfold render_sheet.
+  change (parse_rows_gen gen_parser_remembers_tables) with parse_rows.
+  change {| ps_cur := None; ps_count := 0; ps_ins := []; ps_outs := []; ps_intras := []; ps_art := []; ps_counter := counter; ps_meta := [];
+            ps_seen := [] |}
+    with (st_of None 0 [] (acc0 counter)).
+  destruct (blocks_parse cfg asset ai blocks 0 [] (acc0 counter) a 1 trailing W A ND) as [c P]; auto.
+  { intros b _. split; [destruct (b_tab b); reflexivity | reflexivity]. }
   rewrite P.
   rewrite <- (app_nil_r trailing), rows_blank by assumption.
-  simpl parse_rows. unfold st_of. simpl. simpl in NE. rewrite NE. exact I.
+  unfold parse_rows. simpl parse_rows_gen. unfold st_of. simpl. simpl in NE. rewrite NE. exact I.
 Qed.
 
 Theorem unknown_asset cfg asset counter rows : str_index asset (pc_assets cfg) 0 = None -> is_err (parse_sheet cfg asset counter rows).
-Proof. intro H. unfold parse_sheet. rewrite H. exact I. Qed.
+Proof. intro H. unfold parse_sheet, parse_sheet_gen. rewrite H. exact I. Qed.
